@@ -59,6 +59,8 @@ def tasks(tier):
     shapes = [(1, 3)] if tier == 'quick' else [(1, 2), (1, 3), (1, 4)]
     for F, C in shapes:
         ts.append({'mode': 'sparse', 'F': F, 'C': C})
+    # a line with no frame of its own (tight crop of a line narrower than one frame): an empty matrix goes through the sparsification
+    ts.append({'mode': 'sparse', 'F': 0, 'C': 3})
     ts.sort(key=lambda t: -t.get('n', 1))
     return ts
 
@@ -115,6 +117,14 @@ class Frames:
         self.img, self.off, self.vis_end, self.length = img, off, vis_end, length
         self.lo = lo
         self.hi = length if hi is None else hi
+
+    @property
+    def shape(self):
+        return (self.hi - self.lo, 3)
+
+    def __len__(self):
+        n = self.hi - self.lo
+        return core.concretize(n.e) if isinstance(n, S) else n
 
     def __setitem__(self, key, val):
         assert isinstance(key, _Mask) and val == 0       # sparsification of an abstract frame sequence: not modelled here
@@ -336,7 +346,7 @@ def _run_sparse(H, task):
         e.device = _Dev()
 
         class _I:
-            shape = (H_PX, F * SS, 3)
+            shape = (H_PX, max(F * SS, 2), 3)
         lg = symnp.A([LP(W[t][c], nz=True) for t in range(F) for c in range(C)], (F, C))
         e.run_ocr = lambda batch: (['x'], [lg.copy()])
         tr, out, coords = e.process_lines([_I()], sparse_logits=True)
